@@ -99,9 +99,10 @@ package isolation
 //@   witness n = len(rules)
 //@   replay loadrules_nil
 
-// whole-set rebuild: the raw map is recorded, a fresh map is published, and the caller's lists are not written
-// (frame: nothing allocated before the call changes except the two package variables). That the fresh map holds
-// exactly the valid rules is not proved here (nested map-of-slices invariant; see DESIGN.md).
+// whole-set rebuild: the raw map is recorded, a fresh map is published that holds only valid rules (every list in it
+// is made of rules accepted by IsValidRule and is non-empty), and the caller's lists are not written (frame: nothing
+// allocated before the call changes except the two package variables).
+//@ spec func allValidLists(m) = (forall r Str :: has(m, r) ==> allocated(base(m[r]))) && (forall r Str :: forall k Int :: has(m, r) && 0 <= k && k < len(m[r]) ==> validRule(m[r][k]))
 //@ func onRuleUpdate(rawResRulesMap) err
 //@   props C13
 //@   requires[holds-the-update-lock]{C15} wlockcount(updateRuleMux) > 0
@@ -109,13 +110,18 @@ package isolation
 //@   ensures[never-fails] err == nil
 //@   ensures[raw-recorded] currentRules == rawResRulesMap
 //@   ensures[fresh-map] ruleMap != nil && fresh(ruleMap)
+//@   ensures[only-valid-rules-enforced] allValidLists(ruleMap)
+//@   ensures[no-empty-list-enforced] forall r Str :: has(ruleMap, r) ==> len(ruleMap[r]) > 0
 //@   modifies ruleMap, currentRules
 //@   loop 1:
 //@     invariant[new-map] validResRulesMap != nil && fresh(validResRulesMap)
+//@     invariant[only-valid] allValidLists(validResRulesMap) && (forall r Str :: has(validResRulesMap, r) ==> len(validResRulesMap[r]) > 0)
 //@     invariant[callers-lists-untouched] frame()
 //@   loop 2:
 //@     invariant[new-map] validResRulesMap != nil && fresh(validResRulesMap)
-//@     invariant[list-fresh] fresh(base(validResRules))
+//@     invariant[only-valid] allValidLists(validResRulesMap) && (forall r Str :: has(validResRulesMap, r) ==> len(validResRulesMap[r]) > 0)
+//@     invariant[list-fresh] fresh(base(validResRules)) && (forall k Int :: 0 <= k && k < len(validResRules) ==> validRule(validResRules[k]))
+//@     invariant[list-not-in-the-map-yet] forall r Str :: has(validResRulesMap, r) ==> base(validResRulesMap[r]) != base(validResRules)
 //@     invariant[callers-lists-untouched] frame()
 
 //@ func rulesFrom(m) rules
